@@ -459,7 +459,7 @@ def in_re(vc, s, pyregex):
     from pyvc.libx_http1 import regex_language
     lang = regex_language(pyregex, 0)
     assert lang is not None and not lang[1], pyregex
-    return SBool(z3.InRe(s.t, lang[0]))
+    return SBool(z3.InRe(lift(s).t, lang[0]))
 
 
 def str_to_int(vc, s):
@@ -516,3 +516,80 @@ def s_parse_te(vc):
     if out.ok:
         for L, m in zip(TE_LITERALS, matches):
             vc.ensure(f"result[{L}]", Iff(out.result == L, m))
+
+
+# ---------------------------------------------------------------------------------------------------------------------
+# validate_headers: returns normally  =>  the framing fields are unambiguous (RFC 9112 §6.1-6.3, RFC 9110 §5.1)
+
+TOKEN_B = rb"[!#$%&'*+\-.^_`|~0-9a-zA-Z]+"
+NMAX = 3
+
+
+def ci_pattern(lit: bytes) -> bytes:
+    return b"".join((b"[" + bytes([c]).lower() + bytes([c]).upper() + b"]") if bytes([c]).isalpha() else bytes([c]) for c in lit)
+
+
+def mk_message(vc, kind, names, vals, version, status=None, method=b"GET"):
+    from props.httpstream import mk_request, mk_response, mk_headers
+    h = mk_headers(vc, tuple((names[i], vals[i]) for i in range(len(names))))
+    if kind == "request":
+        return mk_request(vc, headers=h, http_version=version, method=method)
+    return mk_response(vc, headers=h, http_version=version, status_code=status)
+
+
+def count(conds):
+    r = 0
+    for c in conds:
+        r = r + If(c, 1, 0)
+    return r
+
+
+def pick(conds, items, default):
+    """the item of the first true condition"""
+    r = default
+    for c, x in reversed(list(zip(conds, items))):
+        r = If(c, x, r)
+    return r
+
+
+@scenario("validate_headers", functions=[V + "validate_headers", V + "parse_content_length", V + "parse_transfer_encoding"], **_regex_opts())
+def s_validate(vc):
+    kind = vc.case("kind", ["request", "response"])
+    n = vc.case("n", list(range(NMAX + 1)))
+    names = [vc.sym_bytes(f"n{i}") for i in range(n)]
+    vals = [vc.sym_bytes(f"v{i}") for i in range(n)]
+    version = vc.sym_bytes("version")
+    status = vc.sym_int("status", lo=100, hi=999) if kind == "response" else None
+    msg = mk_message(vc, kind, names, vals, version, status)
+    out = vc.call(V + "validate_headers", msg)
+    vc.ensure("raises_only_value_error", out.ok or issubclass(out.raised_type(), ValueError))
+    is_te = [in_re(vc, nm, ci_pattern(b"transfer-encoding")) for nm in names]
+    is_cl = [in_re(vc, nm, ci_pattern(b"content-length")) for nm in names]
+    n_te, n_cl = count(is_te), count(is_cl)
+    te_val = pick(is_te, vals, b"") if n else b""
+    cl_val = pick(is_cl, vals, b"") if n else b""
+    te_chunked = Or(*[in_re(vc, te_val, te_spec_pattern(L, False)) for L in TE_CHUNKED]) if n else False
+    te_plain = Or(*[in_re(vc, te_val, te_spec_pattern(L, False)) for L in TE_PLAIN]) if n else False
+    http11 = version == b"HTTP/1.1"
+    nl = Or(*[endswith(x, b"\n") for x in names + vals]) if n else False   # KF-C01-5: `$` accepts a trailing newline
+    if out.ok:
+        for i in range(n):
+            vc.ensure_kf(f"ok.name_is_token[{i}]", in_re(vc, names[i], TOKEN_B), "KF-C01-5", nl)
+        vc.ensure("ok.at_most_one_te", n_te <= 1)
+        vc.ensure("ok.at_most_one_cl", n_cl <= 1)
+        vc.ensure("ok.not_both", Not(And(n_te >= 1, n_cl >= 1)))
+        vc.ensure_kf("ok.cl_is_digits", Implies(n_cl >= 1, in_re(vc, cl_val, CL_RFC_B)), "KF-C01-5", nl)
+        vc.ensure("ok.te_is_known_coding_list", Implies(n_te >= 1, Or(te_chunked, te_plain)))
+        vc.ensure("ok.te_only_in_http11", Implies(n_te >= 1, http11))
+        if kind == "request":
+            vc.ensure("ok.request_te_ends_in_chunked", Implies(n_te >= 1, te_chunked))
+        else:
+            vc.ensure("ok.no_te_on_1xx_204", Implies(n_te >= 1, Not(Or(And(status >= 100, status <= 199), status == 204))))
+    else:
+        # completeness (mitmproxy is allowed to be stricter than the RFC, this pins down *how* strict): a message is refused
+        # only for one of the reasons of the statement
+        names_ok = And(*[in_re(vc, nm, TOKEN_B) for nm in names]) if n else True
+        cl_ok = Implies(n_cl >= 1, in_re(vc, cl_val, CL_STRICT_B))
+        te_ok = Implies(n_te >= 1, And(http11, te_chunked if kind == "request" else And(Or(te_chunked, te_plain), Not(Or(And(status >= 100, status <= 199), status == 204)))))
+        good = And(names_ok, n_te <= 1, n_cl <= 1, Not(And(n_te >= 1, n_cl >= 1)), cl_ok, te_ok)
+        vc.ensure("refused_only_for_a_stated_reason", Not(good))
